@@ -198,3 +198,44 @@ m('eq-helper-append', 'callbacklist.h', """		NodePtr node(doAllocateNode(callbac
 		head = node;
 
 		return Handle(node);""", 'C01,C02,C03,C09', 'silent')
+
+
+# ---------------- round-2 (second half) additions ------------------------------------------------------
+import os as _os
+_P = _os.path.join(_os.path.dirname(_os.path.abspath(__file__)), 'patches')
+
+
+def mp(id, patch, props, expect, rule=None):
+    M.append(dict(id=id, patch=_os.path.join(_P, patch), props=props, expect=expect, rule=rule))
+
+
+# the counters get a default member initialiser {0} and leave the copy constructor's initialiser list: same behaviour
+mp('eq-counters-nsdmi', 'eq-counters-nsdmi.diff', 'C07,C10,C11,C20', 'silent')
+m('anydata-table-keeps-const', 'utilities/anydata.h', """	using U = typename RemoveCvRef<T>::Type;
+	return doGetAnyDataFunctions<U>();""", """	using U = typename std::remove_reference<T>::type;
+	return doGetAnyDataFunctions<U>();""", 'C17', 'fire', 'C17.A3')
+m('notify-counter-from-source', 'hetereventqueue.h', """			super(other),
+			queueEmptyCounter(0),
+			queueNotifyCounter(0)""", """			super(other),
+			queueEmptyCounter(0),
+			queueNotifyCounter(other.queueNotifyCounter.load())""", 'C07,C11', 'fire', 'C07.W6')
+m('append-moves-node', 'callbacklist.h', """			tail->next = node;
+			tail = node;
+		}
+		else {
+			head = node;
+			tail = node;
+		}
+	}
+""", """			tail->next = node;
+			tail = std::move(node);
+		}
+		else {
+			head = node;
+			tail = node;
+		}
+	}
+""", 'C01,C15,C20', 'fire', None)
+m('eq-remove-helper-lock-first', 'utilities/scopedremover.h', """	auto handlePointer = handle.lock();
+	std::unique_lock<Mutex> lock(mutex);""", """	std::unique_lock<Mutex> lock(mutex);
+	auto handlePointer = handle.lock();""", 'C15,C09', 'silent')
